@@ -22,7 +22,7 @@ func Debug(c *mc.Ctx) {
 	if d := os.Getenv("DEBUG_C16C"); d != "" { // DEBUG_C16C=<depth>: only the concurrent C16 exploration
 		depth := 5
 		fmt.Sscanf(d, "%d", &depth)
-		c16Concurrent(c, depth)
+		c16Concurrent(c, depth, os.Getenv("VERIF_C16C_A3") != "")
 		fix.Cleanup()
 		return
 	}
